@@ -2,5 +2,6 @@ SPECIFICATION Spec
 CONSTANTS
   MaxOps = 2
   OpSet = "all"
+  Atoms = "simple"
   Emit = TRUE
 INVARIANTS RoundTrip ParenOnlyAdds
